@@ -516,12 +516,14 @@ impl MixedGroups {
     }
 }
 
-fn mixed_group_sweep(tier: Tier) -> Sweep {
-    let fam = Rc::new(MixedGroups::new(4, tier.pick(1, 2)));
+fn mixed_group_sweep(k: usize, max_mentions: usize) -> Sweep {
+    let fam = Rc::new(MixedGroups::new(k, max_mentions));
     let f2 = fam.clone();
-    let horizon = tier.pick(300, 1000);
+    // divergent members (a function that calls itself twice) grow fast: a short horizon is enough to
+    // tell a value from a run that is still going
+    let horizon = 300;
     Sweep::new(
-        "rewrite graph to depth 1 from the mixed-group family (functions and computed definitions in one group)",
+        &format!("rewrite graph to depth 1 from the mixed-group family (functions and computed definitions in one group), k = {k}, at most {max_mentions} mention(s)"),
         fam.count(),
         move |idx| {
             count!("evaluations");
@@ -547,13 +549,14 @@ impl Prop for C19 {
             bfs_sweep("rewrite graph to depth 2 from the smaller programs", tier, 1, tier.pick(4, 5), 2),
             bfs_sweep("rewrite graph to depth 1 from the larger programs", tier, tier.pick(5, 6), tier.pick(6, 7), 1),
             family_sweep(tier),
-            mixed_group_sweep(tier),
+            mixed_group_sweep(4, 1),
+            mixed_group_sweep(3, 2),
         ]
     }
     fn evidence(&self, tier: Tier) -> EvidenceSpec {
         EvidenceSpec {
             level: "model_checking",
-            rule: "states = program texts; initial states = every type-directed program of type int, bool or type up to the size bound, every member of the nested-group family (recursive functions with helpers defined before or after them, nested groups), and every member of the mixed-group family (groups of 4 annotated definitions, each a literal, a function or a computed definition mentioning at most 1 / 2 members of the group, any member as the body), that the real front end accepts and the real evaluator takes to a value; transitions = one rewrite at one site: R1 rename any bound variable consistently, R2 parenthesise any subexpression, R3 add an unused definition (a value, a non-value, a type) in front of the program or at the end of its outermost group, R4 name the program with a definition, R5 wrap the program or any subexpression whose head fixes its type in an immediately applied annotated identity function, R6 wrap it in `if true then e else e`, R7 swap two function definitions of a group, adjacent or not, that do not mention each other. Breadth-first search to depth 2 (smaller programs) / 1 (larger), dedup on the program text. Every reachable program is run through the real front end and evaluator and must show the behaviour of the initial program (same acceptance, same value). non-trivial = initial programs whose whole neighbourhood was explored".to_owned(),
+            rule: "states = program texts; initial states = every type-directed program of type int, bool or type up to the size bound, every member of the nested-group family (recursive functions with helpers defined before or after them, nested groups), and every member of the mixed-group family (groups of 4 annotated definitions, each a literal, a function or a computed definition mentioning at most 1 member of the group, and groups of 3 mentioning at most 2, any member as the body), that the real front end accepts and the real evaluator takes to a value; transitions = one rewrite at one site: R1 rename any bound variable consistently, R2 parenthesise any subexpression, R3 add an unused definition (a value, a non-value, a type) in front of the program or at the end of its outermost group, R4 name the program with a definition, R5 wrap the program or any subexpression whose head fixes its type in an immediately applied annotated identity function, R6 wrap it in `if true then e else e`, R7 swap two function definitions of a group, adjacent or not, that do not mention each other. Breadth-first search to depth 2 (smaller programs) / 1 (larger), dedup on the program text. Every reachable program is run through the real front end and evaluator and must show the behaviour of the initial program (same acceptance, same value). non-trivial = initial programs whose whole neighbourhood was explored".to_owned(),
             assumptions: vec!["no reference model is involved: the comparison is between two runs of the real code".to_owned()],
             evaluations: "evaluations",
             nontrivial: "nontrivial",
